@@ -29,7 +29,7 @@ BOUNDS = {'quick': "every relation graph on <= 3 steps and a seeded sample of 15
 OUTSIDE = ["graph depth beyond the shape bound (MAX_GRAPH_DEPTH = 5000 is never approached)", "relations to operations of a different circuit",
            "repetition counts > 1 (C06)"]
 ASSUMPTIONS = ["hash(Sym) constant / == decided by the solver", "memo caches start empty"]
-REQUIRED_REACH = ['C02.count', 'C02.once', 'C02.kind', 'C02.duration', 'C02.causal', 'C02.stable', 'C02.last_entry', 'C02.returned']
+REQUIRED_REACH = ['C02.count', 'C02.once', 'C02.kind', 'C02.duration', 'C02.causal', 'C02.stable', 'C02.late_add', 'C02.last_entry', 'C02.returned']
 EXHAUSTIVE = {'quick': False, 'thorough': False}
 JOB_OPTS = {'quick': dict(max_paths=3000, max_seconds=300), 'thorough': dict(max_paths=20000, max_seconds=900)}
 
@@ -133,3 +133,14 @@ def run(ctx, params):
         ops3 = circuit.operations
         t2 = [o.start_time for o in ops3]
         ctx.check('C02.stable_times', len(t1) == len(t2) and s_and(*[a == b for a, b in zip(t1, t2)]), {'first': t1, 'second': t2})
+        # the listing follows the circuit: an operation added afterwards -- to the circuit or to a nested block through the handle
+        # add() returned for it -- is listed (exactly once), everything listed before is still listed
+        from qce_circuit.structure import circuit_operations as co_
+        from qce_circuit.structure.registry_duration import FixedDurationStrategy as FDS
+        subs_ = [n for n in built.all_nodes if n.is_sub]
+        target = subs_[0].obj if subs_ and params.get('share') else circuit
+        late = co_.Wait(7, duration_strategy=FDS(ctx.real('d_late', lo=0)))
+        target.add(late)
+        ops_late = circuit.operations
+        ctx.check('C02.late_add', sum(1 for o in ops_late if o is late) == 1 and len(ops_late) == len(ops) + 1 and all(any(o is p for p in ops_late) for o in ops),
+                  {'added_to': 'nested block' if target is not circuit else 'circuit', 'listed': len(ops_late), 'expected': len(ops) + 1})
